@@ -500,6 +500,12 @@ PROGRAMS = [
     ('(1, 2, 3) ~ (0 .. 1)', '-'), (':a.b.c', '-'), ('(1, 2) . 0', '-'), ('$', '(l (i 1) (cl 97 98) (p (s 5) (l (i 2))))'),
     ('{ $ . 0 + $ . 1 } <~ (3, 4)', '-'), ('"xy" = "xy"', '-'), ('(1, (2, (3, "deep"))) . 1 . 1 . 1', '-'),
     ('{ $ < 5 ?> ^~ ($ + 1) |> ($, "done") } <~ 0', '-'), ('1 + 2 * 3 - 4', '-'),
+    # calls that push every kind of frame cell: with and without pending operands, at top level and nested, inside lists, with
+    # statement separators and side-effect blocks in the callee
+    ('1 + ({ $ + 10 } <~ 2)', '-'), ('({ { $ + 1 } <~ $ } <~ 1) + 10', '-'), ('1 + (2 * ({ 3 + (4 * ({ $ + 5 } <~ $)) } <~ 6))', '(i 40)'),
+    ('{ { { $ + 1 } <~ $ } <~ $ } <~ 7', '-'), ('(1, { $ * 2 } <~ 2, 3)', '-'), ('{ 5 ; $ + 1 } <~ 10', '-'), ('5 [ { $ } <~ 1 ] + 1', '-'),
+    ('({ ({ $ + 1 } <~ $) * 10 } <~ 5) + 1000', '-'), ('{ { 5 } ~~ } ~~', '-'), ('({ { 5 } ~~ } ~~) + 1', '-'), ('1 + ({ { 5 } ~~ } ~~)', '-'),
+    ('{ $ < 3 ?> ^~ $ + 1 |> { $ * 2 } <~ $ } <~ 0', '-'), ('(:a = { $ + 1 } <~ 1, :b = { $ + 2 } <~ 2) . :b', '-'),
 ]
 
 
